@@ -673,7 +673,7 @@ pub fn worker_c09_conc(ctx: &WorkerCtx, res: &RefCell<WorkerResult>) {
     let cases = std::env::var("VERIF_CASES").ok().and_then(|s| s.parse::<u64>().ok()).map(|c| (c * cases / 8000).max(1)).unwrap_or(cases);
     campaign(ctx, "C09", c09_strategy(), cases, 91, true, res);
     // forced cases spend most of their time in holds: fewer of them
-    campaign(ctx, "C09", c09_forced_strategy(), cases * 3 / 2, 92, true, res);
+    campaign(ctx, "C09", c09_forced_strategy(), cases * 3, 92, true, res);
 }
 
 pub fn replay(v: &Value) -> Result<(), String> {
